@@ -43,6 +43,9 @@ type RefResult struct {
 	SubIn map[string][]V
 	// Contrib: top-level nodes whose output data flowed (transitively) into the value delivered to END
 	Contrib map[string]bool
+	// Incomplete: some (possibly nested) graph stopped at a failing merge (collision / missing key), so
+	// Execs is not the full execution set: execution comparisons are skipped
+	Incomplete bool
 }
 
 type RefEnv struct {
@@ -72,6 +75,9 @@ func EvalGraph(spec *GraphSpec, in V, env *RefEnv) *RefResult {
 		evalPregel(spec, in, env, res, true)
 	} else {
 		evalAllPred(spec, in, env, res, true)
+	}
+	if res.Err == "collision" || res.Err == "keymissing" {
+		res.Incomplete = true
 	}
 	return res
 }
@@ -115,6 +121,9 @@ func evalNode(g *GraphSpec, n *NodeSpec, in V, env *RefEnv, res *RefResult) (V, 
 		}
 		res.Execs = append(res.Execs, sub.Execs...)
 		res.Orphans = append(res.Orphans, sub.Orphans...)
+		if sub.Incomplete || sub.Err == "collision" || sub.Err == "keymissing" {
+			res.Incomplete = true
+		}
 		if sub.Err != "" {
 			return nil, sub.Err, sub.ErrNode
 		}
